@@ -22,18 +22,18 @@ theorem fileRecord_eq (flen : Nat) (f : FileRec) :
   simp [fileRecord, encAll, enc32, List.append_assoc]
 
 theorem fileRecord_length (flen : Nat) (f : FileRec) (h : f.name.length ≤ flen) : (fileRecord flen f).length = 16 + flen := by
-  simp [fileRecord, strncpy_length flen f.name h]; omega
+  simp [fileRecord, strncpy_length flen f.name]; omega
 
 theorem precOf_eq (plen : Nat) (k : PKey) :
     precOf plen k = strncpy plen k.key ++ encAll [2, 8, 8, 8] [k.fnum, k.roff, k.doff, k.len] ++ [] := by
   simp [precOf, pkeyRecord, encAll, enc16, enc64, List.append_assoc]
 
 theorem precOf_length (plen : Nat) (k : PKey) (h : k.key.length ≤ plen) : (precOf plen k).length = 26 + plen := by
-  simp [precOf, pkeyRecord, strncpy_length plen k.key h]; omega
+  simp [precOf, pkeyRecord, strncpy_length plen k.key]; omega
 
-theorem srecOf_length (plen slen : Nat) (k : SKey) (h1 : k.key.length ≤ slen) (h2 : k.pkey.length ≤ plen) :
+theorem srecOf_length (plen slen : Nat) (k : SKey) :
     (srecOf plen slen k).length = slen + plen := by
-  simp [srecOf, strncpy_length slen k.key h1, strncpy_length plen k.pkey h2]
+  simp [srecOf, strncpy_length slen k.key, strncpy_length plen k.pkey]
 
 def toSsiFile (flen : Nat) (f : FileRec) : SsiFile :=
   { name := strncpy flen f.name, format := f.fmt, flags := if f.bpl > 0 ∧ f.rpl > 0 then 1 else 0, bpl := f.bpl, rpl := f.rpl }
@@ -62,8 +62,7 @@ theorem schunks_len {ns : NewSsi} (h : ns.WF) :
     ∀ c ∈ (sortSKeys ns.skeys).map (srecOf ns.plen ns.slen), c.length = ns.slen + ns.plen := by
   intro c hc
   obtain ⟨k, hk, rfl⟩ := List.mem_map.mp hc
-  have := h.skey k ((sortSKeys_perm ns.skeys).mem_iff.mp hk)
-  exact srecOf_length _ _ _ (by omega) (by omega)
+  exact srecOf_length _ _ _
 
 theorem fsec_length {ns : NewSsi} (h : ns.WF) : ns.fsec.length = (16 + ns.flen) * ns.files.length := by
   unfold NewSsi.fsec
@@ -97,7 +96,7 @@ theorem openFiles_image {ns : NewSsi} (h : ns.WF) (n i : Nat) (hni : i + n = ns.
     have hi' : i < (ns.files.map (fileRecord ns.flen)).length := by simpa using hi
     have hci : (ns.files.map (fileRecord ns.flen))[i] = fileRecord ns.flen ns.files[i] := by simp
     have hfi := h.fname ns.files[i] (List.getElem_mem hi)
-    have hnl : (strncpy ns.flen ns.files[i].name).length = ns.flen := strncpy_length _ _ (by omega)
+    have hnl : (strncpy ns.flen ns.files[i].name).length = ns.flen := strncpy_length _ _
     have hname : readAt ns.image.toArray (78 + i * (16 + ns.flen)) ns.flen = some (strncpy ns.flen ns.files[i].name) := by
       rw [himg]
       apply readAt_in_chunk ns.header _ _ (16 + ns.flen) i (fchunks_len h) hi' [] (strncpy ns.flen ns.files[i].name)
@@ -249,7 +248,7 @@ theorem read_pname (i : Nat) (hi : i < (sortPKeys ns.pkeys).length) :
     readAt ns.image.toArray (78 + (16 + ns.flen) * ns.files.length + (26 + ns.plen) * i) ns.plen
       = some (strncpy ns.plen (sortPKeys ns.pkeys)[i].key) := by
   have hk := h.pkey _ (sortP_mem h (List.getElem_mem hi))
-  have hnl : (strncpy ns.plen (sortPKeys ns.pkeys)[i].key).length = ns.plen := strncpy_length _ _ (by omega)
+  have hnl : (strncpy ns.plen (sortPKeys ns.pkeys)[i].key).length = ns.plen := strncpy_length _ _
   rw [image_p h]
   apply readAt_in_chunk _ _ _ (26 + ns.plen) i (pchunks_len h) (by simpa using hi) []
     (strncpy ns.plen (sortPKeys ns.pkeys)[i].key)
@@ -266,7 +265,7 @@ theorem read_phit (i : Nat) (hi : i < (sortPKeys ns.pkeys).length) :
       = some [(sortPKeys ns.pkeys)[i].fnum, (sortPKeys ns.pkeys)[i].roff, (sortPKeys ns.pkeys)[i].doff,
               (sortPKeys ns.pkeys)[i].len] := by
   have hk := h.pkey _ (sortP_mem h (List.getElem_mem hi))
-  have hnl : (strncpy ns.plen (sortPKeys ns.pkeys)[i].key).length = ns.plen := strncpy_length _ _ (by omega)
+  have hnl : (strncpy ns.plen (sortPKeys ns.pkeys)[i].key).length = ns.plen := strncpy_length _ _
   rw [image_p h]
   rw [readFields_in_chunk _ _ _ (26 + ns.plen) i (pchunks_len h) (by simpa using hi)
     (strncpy ns.plen (sortPKeys ns.pkeys)[i].key) []
@@ -286,7 +285,7 @@ theorem read_sname (i : Nat) (hi : i < (sortSKeys ns.skeys).length) :
       (78 + (16 + ns.flen) * ns.files.length + (26 + ns.plen) * ns.pkeys.length + (ns.slen + ns.plen) * i) ns.slen
       = some (strncpy ns.slen (sortSKeys ns.skeys)[i].key) := by
   have hk := h.skey _ (sortS_mem h (List.getElem_mem hi))
-  have hnl : (strncpy ns.slen (sortSKeys ns.skeys)[i].key).length = ns.slen := strncpy_length _ _ (by omega)
+  have hnl : (strncpy ns.slen (sortSKeys ns.skeys)[i].key).length = ns.slen := strncpy_length _ _
   rw [image_s h]
   apply readAt_in_chunk _ _ _ (ns.slen + ns.plen) i (schunks_len h) (by simpa using hi) []
     (strncpy ns.slen (sortSKeys ns.skeys)[i].key) (strncpy ns.plen (sortSKeys ns.skeys)[i].pkey)
@@ -296,13 +295,13 @@ theorem read_sname (i : Nat) (hi : i < (sortSKeys ns.skeys).length) :
   · exact hnl.symm
 
 /-- the primary-key field of secondary record `i` -/
-theorem read_spkey (i : Nat) (hi : i < (sortSKeys ns.skeys).length) (_hpl : ns.plen ≠ 0) :
+theorem read_spkey (i : Nat) (hi : i < (sortSKeys ns.skeys).length) (hpl : ns.plen ≠ 0) :
     readAt ns.image.toArray
       (78 + (16 + ns.flen) * ns.files.length + (26 + ns.plen) * ns.pkeys.length + (ns.slen + ns.plen) * i + ns.slen) ns.plen
       = some (strncpy ns.plen (sortSKeys ns.skeys)[i].pkey) := by
   have hk := h.skey _ (sortS_mem h (List.getElem_mem hi))
-  have hnl : (strncpy ns.slen (sortSKeys ns.skeys)[i].key).length = ns.slen := strncpy_length _ _ (by omega)
-  have hnl2 : (strncpy ns.plen (sortSKeys ns.skeys)[i].pkey).length = ns.plen := strncpy_length _ _ (by omega)
+  have hnl : (strncpy ns.slen (sortSKeys ns.skeys)[i].key).length = ns.slen := strncpy_length _ _
+  have hnl2 : (strncpy ns.plen (sortSKeys ns.skeys)[i].pkey).length = ns.plen := strncpy_length _ _
   rw [image_s h]
   apply readAt_in_chunk _ _ _ (ns.slen + ns.plen) i (schunks_len h) (by simpa using hi)
     (strncpy ns.slen (sortSKeys ns.skeys)[i].key) (strncpy ns.plen (sortSKeys ns.skeys)[i].pkey) []
@@ -351,7 +350,7 @@ theorem reads_skeys : ReadsKeys (rdNameAt ns.image.toArray ns.slen
   have hk := h.skey _ (sortS_mem h (List.getElem_mem hi'))
   unfold rdNameAt
   rw [read_sname h i hi']
-  simp only [cstr?_strncpy _ _ hk.2.1 hk.2.2.1]
+  simp only [cstr?_strncpy _ _ hk.2.1 hk.2.2]
   simp
 
 /-- the primary-key search of `FindName` on the image -/
@@ -390,7 +389,7 @@ theorem bsearch_secondary (key : Bytes) :
     (∃ a ∈ ns.skeys, a.key = key ∧ ∃ pos,
         bsearch ns.image.toArray key ns.slen (78 + (16 + ns.flen) * ns.files.length + (26 + ns.plen) * ns.pkeys.length)
           (ns.slen + ns.plen) ns.skeys.length = .ok pos ∧
-        readAt ns.image.toArray pos ns.plen = some (strncpy ns.plen a.pkey)) ∨
+        (ns.plen ≠ 0 → readAt ns.image.toArray pos ns.plen = some (strncpy ns.plen a.pkey))) ∨
     ((∀ a ∈ ns.skeys, a.key ≠ key) ∧
         bsearch ns.image.toArray key ns.slen (78 + (16 + ns.flen) * ns.files.length + (26 + ns.plen) * ns.pkeys.length)
           (ns.slen + ns.plen) ns.skeys.length = .error .enotfound) := by
@@ -398,7 +397,7 @@ theorem bsearch_secondary (key : Bytes) :
     intro hne
     obtain ⟨x, hx⟩ := List.exists_mem_of_ne_nil _ hne
     obtain ⟨k, hk, _⟩ := List.mem_map.mp hx
-    have := (h.skey k (sortS_mem h hk)).2.2.1
+    have := (h.skey k (sortS_mem h hk)).2.2
     omega
   have hlen : ((sortSKeys ns.skeys).map (·.key)).length = ns.skeys.length := by simp [sortS_len h]
   have := bsearch_section ns.image.toArray _ ns.slen
@@ -407,11 +406,8 @@ theorem bsearch_secondary (key : Bytes) :
   rcases this with ⟨j, hj, hkj, hres⟩ | ⟨habs, hres⟩ <;> rw [hlen] at hres
   · left
     have hj' : j < (sortSKeys ns.skeys).length := by simpa using hj
-    have hpl : ns.plen ≠ 0 := by
-      have := (h.skey _ (sortS_mem h (List.getElem_mem hj'))).2.2.2.2
-      omega
     exact ⟨(sortSKeys ns.skeys)[j], sortS_mem h (List.getElem_mem hj'), by simpa using hkj, _, hres,
-      read_spkey h j hj' hpl⟩
+      fun hpl => read_spkey h j hj' hpl⟩
   · right
     refine ⟨?_, hres⟩
     intro k hk hkey
@@ -458,12 +454,11 @@ theorem findName_alias (a : SKey) (ha : a ∈ ns.skeys) (hnp : ∀ k ∈ ns.pkey
     rcases bsearch_secondary h hd a.key with ⟨a', ha', hkey, pos, hb2, hrd⟩ | ⟨habs, _⟩
     · have : a' = a := eq_of_nodup_map (·.key) ns.skeys hd.2 ha' ha hkey
       subst this
-      have hsk := h.skey a' ha
+      have hpk := h.pkey k hk
       have hpl : ns.plen ≠ 0 := by omega
       rw [hb2]
-      rw [hak] at hsk
-      simp only [hpl, ↓reduceIte, hrd, hak]
-      simp only [cstr?_strncpy _ _ hsk.2.2.2.1 hsk.2.2.2.2]
+      simp only [hpl, ↓reduceIte, hrd hpl, hak]
+      simp only [cstr?_strncpy _ _ hpk.2.1 hpk.2.2.1]
       simp only [hn, hpl, ↓reduceIte] at hrec
       exact hrec
     · exact absurd rfl (habs a ha)
